@@ -1,5 +1,5 @@
 """Rules built on the lifter: every rule of every analysed grammar denotes its grammar expression."""
-from .. import mir, lift, ebnf
+from .. import mir, lift, lift2, ebnf
 
 
 def check_tv(cx, chk, R, only=None, floor=None):
@@ -15,7 +15,7 @@ def check_tv(cx, chk, R, only=None, floor=None):
             chk.violation(R, "%s grammar-unreadable" % inst.name, "cannot read the grammar text of %s" % inst.name)
             continue
         programs += 1
-        L = lift.Lifter(cx, inst)
+        L = lift2.Lifter(cx, inst)
         got_names = set(inst.rule_fns)
         want_names = {r.name for r in g.rules}
         if got_names != want_names:
@@ -26,7 +26,7 @@ def check_tv(cx, chk, R, only=None, floor=None):
             n_rules += 1
             tag = "%s/%s" % (inst.name, r.name)
             try:
-                want = lift.expected_rule_term(g, r)
+                want = lift2.canon(lift.expected_rule_term(g, r))
             except lift.Unliftable as ex:
                 chk.violation(R, tag + " expected", "cannot build the expected term: %s" % ex)
                 continue
@@ -96,7 +96,7 @@ def check_twin(cx, chk, R, name_a, name_b, what, rules=None, floor=1):
     if a is None or b is None:
         chk.anchor_missing(R, "twin instances %s / %s" % (name_a, name_b))
         return
-    La, Lb = lift.Lifter(cx, a), lift.Lifter(cx, b)
+    La, Lb = lift2.Lifter(cx, a), lift2.Lifter(cx, b)
     names = sorted(set(a.rule_fns) | set(b.rule_fns)) if rules is None else rules
     n = 0
     for r in names:
